@@ -166,6 +166,36 @@ func (g *vfGen) genC02() {
 		}
 		g.emit(vfOp("res", doc, 0))
 	}
+	// extension nodes registered with the three text types as aliases: the parameter rule is about
+	// the node's own type, not about what it answers to
+	{
+		docs := [][]byte{
+			[]byte("<html><meta charset=\"koi8-r\"><body>x"),
+			[]byte("<?xml version=\"1.0\" encoding=\"iso-8859-5\"?><r/>"),
+			[]byte("caf\xc3\xa9 au lait, plain text"),
+			[]byte("plain ascii text\n"),
+			{0xEF, 0xBB, 0xBF, 'b', 'o', 'm'},
+		}
+		textPath := "r"
+		for i, c := range root.children {
+			if c.mime == "text/plain" {
+				textPath = strconv.Itoa(i)
+			}
+		}
+		aliasSets := [][]string{{"text/html"}, {"text/plain"}, {"text/xml"}, {"text/html", "text/xml"}, {"TEXT/HTML"}, {"text/plain; charset=utf-8"}}
+		for _, parent := range []string{"r", textPath} {
+			for ai, as := range aliasSets {
+				var hx []string
+				for _, a := range as {
+					hx = append(hx, vfHex([]byte(a)))
+				}
+				sc := fmt.Sprintf("%s:always:%s:%s:%s", parent, vfHex([]byte(fmt.Sprintf("application/x-verif-alias%d", ai))), vfHex([]byte(".va")), strings.Join(hx, "+"))
+				for _, d := range docs {
+					g.emit(vfOp("xwalk", sc, d, []uint32{0, 3072}[g.rng.Intn(2)]))
+				}
+			}
+		}
+	}
 	// every corpus entry
 	for _, c := range vfCorpus() {
 		if len(c) > 1<<16 {
